@@ -391,14 +391,24 @@ fn c15_stream_writer(ctx: &mut Ctx, ch: &Choices) -> R {
     let rate = *ch.pick("c15.sw.rate", &[44100u32, 0, 1, 12345, 65535, 655350, 655351, (1 << 20) - 1, 1 << 20, u32::MAX, 96000, 300000]);
     let chn = ch.draw("c15.sw.ch", 11) as u8;
     let bps = *ch.pick("c15.sw.bps", &[16u32, 0, 1, 4, 8, 12, 13, 20, 24, 32, 33, 17]);
-    let len = *ch.pick("c15.sw.len", &[10usize, 0, 1, 15, 16, 65535, 65536, 70000, 100]);
-    let opts = match ch.draw("c15.sw.opts", 3) {
+    let len = *ch.pick("c15.sw.len", &[10usize, 0, 1, 15, 16, 65535, 65536, 70000, 100, 128, 256, 1152, 4096, 192]);
+    let opts = match ch.draw("c15.sw.opts", 5) {
         0 => Options::default(),
         1 => Options::fast(),
-        _ => Options::best().max_lpc_order(Some(32)).unwrap(),
+        2 => Options::best().max_lpc_order(Some(32)).unwrap(),
+        // every documented option value must work in this front-end too
+        3 => Options::default().max_partition_order(ch.draw("c15.sw.part", 16) as u32).unwrap(),
+        _ => Options::default()
+            .max_partition_order(*ch.pick("c15.sw.part2", &[15u32, 7, 8, 6]))
+            .unwrap()
+            .max_lpc_order(*ch.pick("c15.sw.lpc", &[None, Some(1u8), Some(32), Some(12)]))
+            .unwrap()
+            .mid_side(ch.draw("c15.sw.ms", 2) == 0)
+            .fast_channel_correlation(ch.draw("c15.sw.fast", 2) == 0),
     };
     let n = len * chn.max(1) as usize + if ch.draw("c15.sw.ragged", 5) == 4 { 1 } else { 0 };
-    let samples: Vec<i32> = (0..n).map(|i| if bps >= 2 && bps <= 32 { (i as i32 % 3) - 1 } else { 0 }).collect();
+    // not too regular: real residuals, so that partitioning has something to choose
+    let samples: Vec<i32> = (0..n).map(|i| if bps >= 4 && bps <= 32 { ((i as i32).wrapping_mul(2654435) >> 7) % 7 - 3 } else if bps >= 2 { (i as i32 % 3) - 1 } else { 0 }).collect();
     let what = format!("FlacStreamWriter::write(rate={rate}, channels={chn}, bits={bps}, {n} samples)");
     ctx.describe(|| what.clone());
     ctx.api(42, 0);
